@@ -391,3 +391,33 @@ def check_sorted(cases):
                 bad.append(dict(cls="SortedLimiter", evaluation=k, calls=c["calls"], n_select=c["n"], passed=kw, expected=c["flags"][k], got=got))
                 break
     return bad
+
+
+def check_timemode(cases):
+    """Delay / Average with mode='time' on monotone and repeated time stamps (half seconds), against the interpolant definitions."""
+    NumParam, Algeb, State = _mk()
+    from andes.core.discrete import Delay, Average
+    bad = []
+    for c in cases:
+        D = c["D"] * 0.5
+        u1, u2 = Algeb(), Algeb()
+        for u in (u1, u2):
+            u.v = np.array([0.0, 0.0])
+        dl = Delay(u1, mode="time", delay=D)
+        av = Average(u2, mode="time", delay=D)
+        dl.list2array(2)
+        av.list2array(2)
+        for k, call in enumerate(c["calls"]):
+            t = call["t"] * 0.5
+            for u in (u1, u2):
+                u.v[:] = [float(call["u"]), float(call["u"]) + 10.0]
+            dl.check_var(t)
+            av.check_var(t)
+            ed, ea = Fraction(*c["delay"][k]), Fraction(*c["avg"][k])
+            if not (abs(dl.v[0] - float(ed)) <= 1e-12 and abs(dl.v[1] - float(ed) - 10) <= 1e-12):
+                bad.append(dict(cls="Delay", mode="time", calls=c["calls"][:k + 1], delay_s=D, expected=float(ed), got=dl.v.tolist()))
+                break
+            if not (abs(av.v[0] - float(ea)) <= 1e-12 and abs(av.v[1] - float(ea) - 10) <= 1e-12):
+                bad.append(dict(cls="Average", mode="time", calls=c["calls"][:k + 1], delay_s=D, expected=float(ea), got=av.v.tolist()))
+                break
+    return bad
